@@ -215,6 +215,87 @@ theorem cancelled_endpoint_never_contacted (dead : List Nat) (os : List Outcome)
 
 example : (callSeq true [] [[.nonceErr, .accept], [.accept, .accept]]).map (·.contacted) = [[0, 1], [1]] := by decide
 
+/-! ### configuration across setters and reconnects -/
+
+/-- every gas price ever set fits the `uint64` field the adaptor keeps it in -/
+def SmallPrices (ops : List Op) : Prop := ∀ v, Op.setGasPrice v ∈ ops → v < 2 ^ 64
+
+/-- **reconnect preserves the configuration**: when the session copy and the fields agree (they do after every
+history, `config_coherent`), `DisconnectAll` + `Connect` leaves gas limit, gas price and chain id of the
+sessions exactly as they were. -/
+theorem reconnect_preserves_config (a : Adaptor) (h : a.session = a.field) :
+    a.reconnect.session = a.session ∧ a.reconnect.field = a.field := by
+  simp [Adaptor.reconnect, h]
+
+/-- after ANY history of setters, reconnects and calls (prices within `uint64`) the sessions carry exactly the
+configuration the operator has set, and the fields `Connect` would rebuild them from agree with it -/
+theorem config_coherent (fixed : Bool) : ∀ (ops : List Op) (a : Adaptor),
+    a.session = a.field → SmallPrices ops →
+      (a.after fixed ops).session = (a.after fixed ops).field ∧
+      (a.after fixed ops).session = intended a.session ops := by
+  intro ops
+  induction ops with
+  | nil => intro a h _; exact ⟨h, rfl⟩
+  | cons op ops ih =>
+    intro a h hs
+    have hs' : SmallPrices ops := fun v hv => hs v (List.mem_cons_of_mem _ hv)
+    cases op with
+    | setGasPrice v =>
+      have hv : v < 2 ^ 64 := hs v (by simp)
+      have hm : v % 2 ^ 64 = v := Nat.mod_eq_of_lt hv
+      have hc : (a.setGasPrice v).session = (a.setGasPrice v).field := by
+        simp only [Adaptor.setGasPrice, u64, hm, h]
+      simpa [Adaptor.after, intended, Adaptor.setGasPrice] using ih (a.setGasPrice v) hc hs'
+    | setGasLimit v =>
+      have hc : (a.setGasLimit v).session = (a.setGasLimit v).field := by
+        simp [Adaptor.setGasLimit, h]
+      simpa [Adaptor.after, intended, Adaptor.setGasLimit] using ih (a.setGasLimit v) hc hs'
+    | reconnect =>
+      have hc : a.reconnect.session = a.reconnect.field := by simp [Adaptor.reconnect]
+      have := ih a.reconnect hc hs'
+      simpa [Adaptor.after, intended, Adaptor.reconnect, h] using this
+    | send os =>
+      simpa [Adaptor.after, intended] using
+        ih ({ a with dead := (call fixed a.dead os).2 } : Adaptor) h hs'
+
+theorem intended_chainId : ∀ (ops : List Op) (c : Config), (intended c ops).chainId = c.chainId := by
+  intro ops
+  induction ops with
+  | nil => intro c; rfl
+  | cons op ops ih => intro c; cases op <;> simp [intended, ih]
+
+/-- **every transaction uses the current configuration**: in any history `pre ++ send os :: post` from a fresh
+adaptor with configuration `c`, every transaction signed for that call — on whichever endpoints the failover
+contacts — carries the gas limit and gas price last set by the operator before it (`intended c pre`;
+price 0 = the endpoint's suggestion) and the configured chain id, however many reconnects and endpoint failures
+lie in between. -/
+theorem sent_tx_uses_current_config (c : Config) (pre post : List Op) (os : List Outcome)
+    (hs : SmallPrices pre) :
+    ∃ r txs rest, ((Adaptor.start c).after true pre).exec true (.send os :: post) = (r, txs) :: rest ∧
+      ∀ t ∈ txs, t.gas = (intended c pre).gasLimit ∧ t.price = (intended c pre).gasPrice ∧ t.chainId = c.chainId := by
+  obtain ⟨_, hi⟩ := config_coherent true pre (Adaptor.start c) rfl hs
+  refine ⟨_, _, _, rfl, ?_⟩
+  intro t ht
+  simp only [List.mem_map] at ht
+  obtain ⟨i, _, rfl⟩ := ht
+  have hi' : ((Adaptor.start c).after true pre).session = intended c pre := hi
+  rw [hi']
+  exact ⟨rfl, rfl, intended_chainId pre c⟩
+
+/-- a history run from the start is the run of its first part followed by the run of the rest from the state reached -/
+theorem exec_append (fixed : Bool) : ∀ (pre ops : List Op) (a : Adaptor),
+    a.exec fixed (pre ++ ops) = a.exec fixed pre ++ (a.after fixed pre).exec fixed ops := by
+  intro pre
+  induction pre with
+  | nil => intro ops a; simp [Adaptor.exec, Adaptor.after]
+  | cons op pre ih =>
+    intro ops a
+    cases op <;> simp [Adaptor.exec, Adaptor.after, ih]
+
+example : ((Adaptor.start ⟨5000000, 20, 1⟩).exec true
+      [.send [.accept], .setGasPrice 0, .reconnect, .send [.nonceErr, .accept], .setGasLimit 7, .reconnect, .send [.accept, .accept]]).map (·.2) =
+    [[⟨0, 5000000, 20, 1⟩], [⟨0, 5000000, 0, 1⟩, ⟨1, 5000000, 0, 1⟩], [⟨0, 7, 0, 1⟩]] := by decide
+
 /-! ### marshalling -/
 
 /-- **5a. signature**: a 64-byte signature `x ‖ y` (32-byte big-endian words, leading zero bytes
@@ -428,6 +509,29 @@ theorem closures_marshalling :
        ("RegisterNewNode", ["proxies := e.proxies"], "proxies[idx].RegisterNewNode()"),
        ("Commit", ["crs := e.crs"], "crs[idx].Commit(cid, commitment)"),
        ("Reveal", ["crs := e.crs"], "crs[idx].Reveal(cid, secret)")] := by
+  decide
+
+set_option maxRecDepth 8000 in
+/-- **regenerated: the configuration setters and `Connect` are what `Adaptor.setGasPrice / setGasLimit /
+reconnect` model**: both setters store `v.Uint64()` in the adaptor's field unconditionally and update every
+session (`SetGasPrice`: `nil` for 0, else `v`); `NewEthAdaptor` stores the configured values in those fields;
+`Connect` builds every transactor (RPC and websocket alike) from `e.key`, `e.chainID`, `e.gasLimit` and, if
+non-zero, `e.gasPrice`. -/
+theorem config_shape_matches_model :
+    skeletonSetGasLimit = ["0 e.gasLimit = gasLimit.Uint64()", "0 for",
+      "1 e.proxies[i].TransactOpts.GasLimit = gasLimit.Uint64()", "1 e.crs[i].TransactOpts.GasLimit = gasLimit.Uint64()"] ∧
+    skeletonSetGasPrice = ["0 e.gasPrice = gasPrice.Uint64()", "0 for",
+      "1 if gasPrice.Cmp(big.NewInt(0)) == 0",
+      "2 e.proxies[i].TransactOpts.GasPrice = nil", "2 e.crs[i].TransactOpts.GasPrice = nil",
+      "1 else",
+      "2 e.proxies[i].TransactOpts.GasPrice = gasPrice", "2 e.crs[i].TransactOpts.GasPrice = gasPrice"] ∧
+    newAdaptorConfig = ["0 chainID := new(big.Int)", "0 chainID.SetString(config.ChainID, 10)", "0 adaptor.chainID = chainID",
+      "0 adaptor.key = key", "0 adaptor.gasLimit = uint64(gasLimitInt)", "0 adaptor.gasPrice = uint64(gasPriceInt)"] ∧
+    connectTransactor =
+      ["auth, err := bind.NewKeyedTransactorWithChainID(e.key.PrivateKey, e.chainID)", "auth.GasLimit = e.gasLimit",
+       "if e.gasPrice != 0", "auth.GasPrice = big.NewInt(int64(e.gasPrice))", "auth.Context = ctx",
+       "auth, err := bind.NewKeyedTransactorWithChainID(e.key.PrivateKey, e.chainID)", "auth.GasLimit = e.gasLimit",
+       "if e.gasPrice != 0", "auth.GasPrice = big.NewInt(int64(e.gasPrice))", "auth.Context = ctx"] := by
   decide
 
 end Dos.Props.C19
